@@ -213,7 +213,8 @@ DoneFailures(os, done, i, e) ==
       acc2 == IF isW /\ d.res = "ok" THEN os.acc + d.k ELSE os.acc
       last == i = Len(done)
       \* the private buffer did not simply grow by k: the write tried to publish a chunk
-      completes == ~e.gz /\ os.lastBuf >= 0 /\ d.buf # os.lastBuf + d.k
+      \* (or it grew right up to the chunk size: the chunk is complete, whether or not it got published)
+      completes == ~e.gz /\ os.lastBuf >= 0 /\ (d.buf # os.lastBuf + d.k \/ os.lastBuf + d.k >= e.cap)
       bad ==
         {id \in Enforce :
            \* C08: a write of a non-empty buffer to a live body accepts at least one byte
